@@ -756,3 +756,9 @@ SPECS["C15"]["level_text"] += ". Added: BOUNDED truncation sweeps of a Roland im
 SPECS["C15"]["not_covered"] = ["volume/partition table truncation handlers beyond PartitionAdapter._parse / FileAdapter._parse / _load_partitions as contracts"]
 
 SPECS["C11"]["level_text"] += "; the image-level interleaving monitor also covers a Roland image (incl. a time-reversed stream) and a bin/cue image"
+
+# C04 quantifies over AKAI, Roland AND CDDA images: the Roland and the bin/cue end-to-end monitors judge every file they see with the same strict RIFF
+# parser - their well-formedness clauses now count for C04 too (only those clauses: clause_prefixes)
+SPECS["C04"]["bounded"] += [("contracts.e2e", "e2e:C02"), ("contracts.e2e_names", "e2e:cdda_names")]
+SPECS["C04"]["clause_prefixes"] = ["well-formed", "C04.", "nothing-exported", "no-undeclared-exception", "oracle."]
+SPECS["C04"]["level_text"] += ". The Roland (e2e:C02) and bin/cue (e2e:cdda_names) monitors' well-formedness clauses are part of this check"
